@@ -1227,7 +1227,13 @@ func c09StructMut(st *c09Step) func(*etree.Element) {
 			}
 			name := []string{"Signature", "Assertion", "EncryptedAssertion"}[st.Variant%3]
 			for i := 0; i < st.N; i++ {
-				el.CreateElement(name)
+				c := el.CreateElement(name)
+				switch (st.Variant / 3) % 3 {
+				case 1: // each child declares a default namespace of its own
+					c.CreateAttr("xmlns", "urn:example:elsewhere")
+				case 2: // each child declares a prefix of its own
+					c.CreateAttr("xmlns:z", "urn:example:elsewhere")
+				}
 			}
 		}
 	case st.Op == "huge-attribute" && st.Variant%2 == 1:
@@ -2029,14 +2035,24 @@ func c09ExecResponse(c *c09Ctx, st *c09Step, k c09Knobs) {
 		body := c09XMLLayer(elBytes(c09BuildResponse(o, t0)), st)
 		cpu0 := c09CPUSeconds()
 		pan = c09Guard(func() { as, err = spv.ParseXMLResponse(body, ids, spv.AcsURL) })
-		if spent, allowed := c09CPUSeconds()-cpu0, 3+12*float64(len(body))/(1<<20); (st.Op == "deep-nesting" || st.Op == "many-declarations-many-children") && pan == nil {
+		if spent, allowed := c09CPUSeconds()-cpu0, 2+4*float64(len(body))/(1<<20); (st.Op == "deep-nesting" || st.Op == "many-declarations-many-children") && pan == nil {
 			// processor time of the consuming call (not the bubble's clock, which does not move while code runs): it has to stay
 			// within a generous linear bound of the input size - what takes 0.1 s at 70 KB and 18 s at 280 KB takes hours at the
 			// size of a POST body
 			c.res.probe("cpu-time-measured-for-deep-nesting")
+			switch r := spent / allowed; {
+			case r < 0.1:
+				c.res.probe("cpu-time-below-10%-of-the-bound")
+			case r < 0.3:
+				c.res.probe("cpu-time-10-30%-of-the-bound")
+			case r < 0.6:
+				c.res.probe("cpu-time-30-60%-of-the-bound")
+			default:
+				c.res.probe("cpu-time-above-60%-of-the-bound")
+			}
 			if spent > allowed {
 				c.res.logf("step %d %s: %d KB of input took more than the linear bound of processor time", c.si, st.Entry, len(body)>>10)
-				c.res.violate(c.si, "hang", "C09/blow-up/cpu/"+c09Func(st.Entry)+"/"+shape, fmt.Sprintf("processor time within 3 s + 12 s/MB of input (%.1f s for %d KB)", allowed, len(body)>>10), "more than that", fmt.Sprintf("n=%d", st.N))
+				c.res.violate(c.si, "hang", "C09/blow-up/cpu/"+c09Func(st.Entry)+"/"+shape, fmt.Sprintf("processor time within 2 s + 4 s/MB of input (%.1f s for %d KB)", allowed, len(body)>>10), "more than that", fmt.Sprintf("n=%d", st.N))
 				return
 			}
 		}
@@ -2584,8 +2600,11 @@ func genTotality(g *Rng, tier string) *Plan {
 			case "deep-nesting":
 				st.N = Pick(g, 10_000, 10_000, 9_999, 10_001, 1_000, 20_000, 40_000, 40_000)
 			case "many-declarations-many-children":
-				st.N = Pick(g, 500, 2000, 4000, 4000)
-				st.Variant = g.Intn(3)
+				st.N = Pick(g, 500, 2000, 4000, 10000, 10000)
+				st.Variant = g.Intn(9)
+				if st.Family == "response" && g.Bool(0.6) {
+					st.Entry = "ParseXMLResponse" // the entry point whose processor time is measured
+				}
 				st.Layout, st.Encrypt = "A", false
 			case "huge-attribute":
 				st.N = Pick(g, 1<<16, 1<<20, 1<<20, 5<<20)
